@@ -89,6 +89,10 @@ impl RpuDataHeader {
                 header.bl_bit_depth_minus8 = reader.get_ue()?;
 
                 let el_bit_depth_minus8 = reader.get_ue()?;
+                ensure!(
+                    el_bit_depth_minus8 <= 0xFFFF,
+                    "el_bit_depth_minus8 with ext_mapping_idc should fit in 16 bits"
+                );
                 // 8 lowest bits
                 header.el_bit_depth_minus8 = el_bit_depth_minus8 & 0xFF;
 
